@@ -93,6 +93,83 @@ func runHook(c dagCase) string {
 	return res
 }
 
+// relabel gives the nodes 1..n arbitrary distinct version ids (not topological; values around the
+// byte boundaries of the 4-byte version field of a storage key).
+func relabel(rng *lib.Rand, c dagCase) (ids []int) {
+	pool := []int{1, 2, 3, 7, 254, 255, 256, 257, 511, 512, 65535, 65536, 65537, 70000, 1 << 24, 1<<24 + 1, 1<<31 - 1, 1000, 20, 21, 22, 500, 700}
+	used := map[int]bool{}
+	for i := 0; i < len(c.Parents); i++ {
+		for {
+			x := pool[rng.Intn(len(pool))]
+			if rng.Chance(0.3) {
+				x = 1 + rng.Intn(100000)
+			}
+			if !used[x] {
+				used[x] = true
+				ids = append(ids, x)
+				break
+			}
+		}
+	}
+	return
+}
+
+func addDag2(run *lib.Run, c dagCase, ids []int) {
+	parents := map[dvid.VersionID][]dvid.VersionID{}
+	var dagS []string
+	for i := len(c.Parents) - 1; i >= 0; i-- {
+		var l []dvid.VersionID
+		var ps []string
+		for _, p := range c.Parents[i] {
+			l = append(l, dvid.VersionID(ids[p-1]))
+			ps = append(ps, strconv.Itoa(ids[p-1]))
+		}
+		parents[dvid.VersionID(ids[i])] = l
+		if len(ps) > 0 {
+			dagS = append(dagS, fmt.Sprintf("(%d,[%s])", ids[i], strings.Join(ps, ";")))
+		}
+	}
+	var es []datastore.VerifEntry
+	var esS []string
+	for _, e := range c.Entries {
+		es = append(es, datastore.VerifEntry{V: dvid.VersionID(ids[e.V-1]), Tombstone: e.Tomb, ID: uint64(e.ID)})
+		if e.Tomb {
+			esS = append(esS, fmt.Sprintf("(%d,Tomb)", ids[e.V-1]))
+		} else {
+			esS = append(esS, fmt.Sprintf("(%d,Val %d)", ids[e.V-1], e.ID))
+		}
+	}
+	obs := func(id uint64, found bool, err error) string {
+		switch {
+		case err != nil:
+			return "ObsErr"
+		case !found:
+			return "ObsNone"
+		}
+		return fmt.Sprintf("(ObsVal %d None)", id)
+	}
+	var okv, obest string
+	p, _ := lib.Recover(func() {
+		a, af, ae, b, bf, be := datastore.VerifVersionedRead(parents, es, dvid.VersionID(ids[c.V-1]))
+		okv, obest = obs(a, af, ae), obs(b, bf, be)
+	})
+	if p {
+		okv, obest = "ObsErr", "ObsErr"
+	}
+	term := fmt.Sprintf("CDag2 [%s] [%s] %d %d %s %s", strings.Join(dagS, ";"), strings.Join(esS, ";"), ids[c.V-1], len(c.Parents)+2, okv, obest)
+	run.Count("dag2-shape:" + shape(c))
+	c.Kind = "relabelled-dag"
+	b, _ := json.Marshal(struct {
+		C   dagCase
+		IDs []int
+	}{c, ids})
+	run.Add("relabelled-dag", term, struct {
+		Kind string  `json:"kind"`
+		C    dagCase `json:"c"`
+		IDs  []int   `json:"ids"`
+	}{"relabelled-dag", c, ids}, "dag2/"+string(b))
+}
+
 func shape(c dagCase) string {
 	merges, maxp := 0, 0
 	for _, ps := range c.Parents {
@@ -320,6 +397,13 @@ func main() {
 			var hc histCase
 			lib.LoadReplay(o.Replay, &hc)
 			runHistory(run, rng, 0, 3, hc.Ops, kind == "unversioned")
+		} else if kind == "relabelled-dag" {
+			var rc struct {
+				C   dagCase `json:"c"`
+				IDs []int   `json:"ids"`
+			}
+			lib.LoadReplay(o.Replay, &rc)
+			addDag2(run, rc.C, rc.IDs)
 		} else if kind == "enum" {
 			var dc dagCase
 			lib.LoadReplay(o.Replay, &dc)
@@ -390,6 +474,20 @@ func main() {
 	}
 	run.Extra["exhaustive_dags_up_to_nodes"] = maxN
 	run.Extra["exhaustive"] = false
+	// the same random DAGs with arbitrary (non-topological, byte-boundary) version ids through the
+	// full read path (real keys, VersionFromKey, VersionedKeyValue / GetBestKeyVersion)
+	nDag2 := 300
+	if o.Thorough() {
+		nDag2 = 4000
+	}
+	for i := 0; i < nDag2; i++ {
+		n := 2 + rng.Intn(8)
+		c := dagCase{Parents: randomDag(rng, n), Entries: randomEntries(rng, n), V: 1 + rng.Intn(n)}
+		if rng.Chance(0.7) {
+			c.V = n
+		}
+		addDag2(run, c, relabel(rng, c))
+	}
 	nHist := 12
 	if o.Thorough() {
 		nHist = 120
